@@ -38,17 +38,26 @@ def anyCust (n : Nat) (av : Nat → Bool) : Bool := (List.range n).any (fun k =>
 /-- `td["agent_idx"] < td["num_agents"] - 1` (operator extracted from the source): an agent is left -/
 def agentLeft (i : Inst) (s : State) : Bool := Params.mtspAgentCmp.evalNat (s.agent + 1) i.m
 
+/-- `(current_node == 0).long()` added to `agent_idx` (operator extracted from the source) -/
+def agentInc (a : Nat) : Nat := if Params.mtspAgentIncCmp.evalNat a 0 then 1 else 0
+/-- `current_node != 0` of the depot-availability test (operator extracted from the source) -/
+def depotNe (a : Nat) : Bool := Params.mtspDepotNeCmp.evalNat a 0
+/-- `torch.count_nonzero(available[..., 1:], dim=-1) == 0` (operator extracted from the source) -/
+def doneTest (n : Nat) (av : Nat → Bool) : Bool := Params.mtspDoneCmp.evalNat (cnt n (fun k => av (k + 1))) 0
+/-- `cur_agent_idx == td["agent_idx"]` of the length reset (operator extracted from the source) -/
+def sameAgent (x y : Nat) : Bool := Params.mtspResetCmp.evalNat x y
+
 /-- `_step` with `isFirst` = the (batch-global) flag `batch_to_scalar(td["i"]) == 0`. -/
 def stepWith (isFirst : Bool) (i : Inst) (s : State) (a : Nat) : State :=
   -- cur_agent_idx = agent_idx + (current_node == 0)
-  let agent' := s.agent + (if a = 0 then 1 else 0)
+  let agent' := s.agent + agentInc a
   -- available = action_mask.scatter(-1, current_node, 0)
   let av1 := upd s.avail a false
   -- available[..., 0] = (current_node != 0) & (agent_idx < num_agents - 1)
-  let depotOpen := decide (a ≠ 0) && agentLeft i s
+  let depotOpen := depotNe a && agentLeft i s
   let av2 := upd av1 0 depotOpen
   -- done = count_nonzero(available[..., 1:]) == 0
-  let done := !(anyCust i.n av2)
+  let done := doneTest i.n av2
   -- available[..., 0] = done | available[..., 0]
   let av3 := upd av2 0 (done || depotOpen)
   -- current_length = current_length + dist(cur, prev)
@@ -58,7 +67,7 @@ def stepWith (isFirst : Bool) (i : Inst) (s : State) (a : Nat) : State :=
   -- max_subtour_length = where(closed_length > max_subtour_length, closed_length, max_subtour_length)
   let mx := if closed > s.maxLen then closed else s.maxLen
   -- current_length *= (cur_agent_idx == agent_idx)     (the closing leg is NOT stored)
-  let len3 := if agent' = s.agent then len1 else 0
+  let len3 := if sameAgent agent' s.agent then len1 else 0
   { cur := a, agent := agent', curLen := len3, maxLen := mx, avail := av3, i := s.i + 1,
     first := if isFirst then a else s.first, done := done }
 
